@@ -46,9 +46,19 @@ def call(api, aps, rows, unit, req2, req_unit, subset=None):
     """returns ('refused', exc) or ('ok', out[row][k], meta_ok)"""
     from astropy import units as u
     req = np.array(req2, dtype=float) / 2.0
+
+    def on_table(table_q, ru):
+        """the request as a quantity in unit ru / as bare AU numbers (ru None).  A request ON a tabulated radius is
+        DERIVED FROM THE TABLE (its stored value converted to the request's unit), which is what "the tabulated
+        radius in another unit" means in floating point; every other request comes from its AU number."""
+        out = (req * u.au).to(ru if ru is not None else u.au)
+        for k_, r2 in enumerate(req2):
+            if r2 % 2 == 0 and (r2 // 2) in aps:
+                out[k_] = table_q[aps.index(r2 // 2)].to(out.unit)
+        return out if ru is not None else out.value
     if api == 'conv':
         c = make_conv(aps, rows, unit)
-        q = (req * u.au).to(getattr(u, req_unit))
+        q = on_table(c.apertures, getattr(u, req_unit))
         try:
             if (len(req2) + len(aps)) % 2:
                 # the same table object has already served another request (above, on and inside the table)
@@ -69,9 +79,9 @@ def call(api, aps, rows, unit, req2, req_unit, subset=None):
     if api in ('sed', 'sedq'):
         try:
             if api == 'sed':
-                o = s.interpolate(req.copy())            # bare numbers = AU, as plot() passes them
+                o = s.interpolate(on_table(s.apertures, None))            # bare numbers = AU, as plot() passes them
             else:
-                o = s.interpolate((req * u.au).to(getattr(u, req_unit)))   # quantities are accepted too
+                o = s.interpolate(on_table(s.apertures, getattr(u, req_unit)))   # quantities are accepted too
         except Exception as e:
             return ('refused', repr(e), None)
         o = np.asarray(getattr(o, 'value', o), dtype=float)
@@ -83,7 +93,7 @@ def call(api, aps, rows, unit, req2, req_unit, subset=None):
         wavs = s.wav.to(u.micron).value.copy()
         sel = list(range(len(rows))) if subset is None else list(subset)
         try:
-            o = s.interpolate_variable(wavs[sel], req[sel].copy())
+            o = s.interpolate_variable(wavs[sel], on_table(s.apertures, None)[sel].copy())
         except Exception as e:
             return ('refused', repr(e), None)
         o = np.asarray(getattr(o, 'value', o), dtype=float)
@@ -124,13 +134,6 @@ def replay_chunk(behs, seed):
                 want_refuse = any(exp[q] == [] for k_, q in enumerate(req2) if (subset is None or api != 'var' or k_ in subset))
                 desc = {'api': api, 'aps_AU': aps, 'table_unit': unit, 'request_unit': req_unit if api in ('conv', 'sedq') else 'bare AU',
                         'rows': rows, 'requests_AU': [q / 2.0 for q in req2]}
-                # BOUNDARY: a request exactly on the first/last tabulated radius that goes through a unit
-                # conversion may land 1 ulp outside the table; refusal is admitted there (and only there)
-                edgeconv = ((unit != req_unit) if api == 'conv' else (unit != 'au' or (api == 'sedq' and req_unit != 'au'))) and len(aps) > 1 and \
-                    any(q in (2 * aps[0], 2 * aps[-1]) for k_, q in enumerate(req2) if (subset is None or api != 'var' or k_ in subset))
-                if res[0] == 'refused' and not want_refuse and edgeconv:
-                    col.extra['boundary_refusals_admitted'] = col.extra.get('boundary_refusals_admitted', 0) + 1
-                    continue
                 if (res[0] == 'refused') != want_refuse:
                     sig = 'C13:%s:%s' % (api, 'raised' if res[0] == 'refused' else 'not_refused')
                     if res[0] == 'refused' and 'UnitConversionError' in res[1]:
@@ -187,8 +190,7 @@ def record(seeds):
                 req2.append(2 * rng.choice(aps) if r < 0.3 else (rng.randint(1, 2 * aps[0]) if r < 0.4 else rng.randint(2 * aps[0], 2 * aps[-1] + 20)))
             unit, req_unit = rng.choice(UNITS), rng.choice(UNITS)
             res = call(api, aps, rows, unit, req2, req_unit)
-            edgeconv = ((unit != req_unit) if api == 'conv' else (unit != 'au' or (api == 'sedq' and req_unit != 'au'))) and len(aps) > 1 and \
-                any(q in (2 * aps[0], 2 * aps[-1]) for q in req2)
+            edgeconv = False        # requests on a tabulated radius are derived from the table: no boundary is admitted any more
             ev = {'ev': 'Call', 'api': api, 'req2': req2, 'refused': int(res[0] == 'refused'), 'out': [], 'rowof': list(range(1, nrows + 1)),
                   'meta': 1, 'edgeconv': int(edgeconv)}
             if res[0] == 'ok':
